@@ -306,7 +306,7 @@ class SegmMachine(Machine):
             q['labels'] = self._pick_labels(rng, a, st, many=True,
                                             allow_empty=False)
         elif name == 'make_source_mask':
-            q['size'] = rng.pick([None, 1, 3, [1, 3]])
+            q['size'] = rng.pick([None, 1, 3, [1, 3], 'cross', 'disk'])
         else:
             q['seed'] = rng.randint(0, 5)
         return q
@@ -730,6 +730,20 @@ class SegmMachine(Machine):
             size = op.get('size')
             if isinstance(size, list):
                 size = tuple(size)
+            if size in ('cross', 'disk'):
+                fp = (np.array([[0, 1, 0], [1, 1, 1], [0, 1, 0]])
+                      if size == 'cross' else
+                      np.array([[0, 1, 1, 1, 0]] + [[1] * 5] * 3
+                               + [[0, 1, 1, 1, 0]]))
+                from scipy.ndimage import binary_dilation
+                out = call(obj.make_source_mask, footprint=fp)
+                st.trace.add('query', name, digest(out))
+                exp = binary_dilation(M != 0, structure=fp.astype(bool))
+                if isinstance(out, Raised) or not np.array_equal(out, exp):
+                    raise Violation('definition', name,
+                                    f'footprint {size}: not the dilation of '
+                                    f'(data != 0)')
+                return
             out = call(obj.make_source_mask, size=size)
             exp = call(self._fresh(st, a).make_source_mask, size=size)
             st.trace.add('query', name, digest(out))
